@@ -76,6 +76,4 @@ theorem validate_guards_ok : validate_guards = (["len(parts) != 3", "checkSignat
 
 theorem extractState_guards_ok : extractState_guards = (["lastChar <= len(state)"] : List String) := rfl
 
-theorem clearRegex_args_ok : clearRegex_args = ([] : List String) := rfl
-
 end O2P.Expect.C19
